@@ -197,6 +197,25 @@ pub fn wild_kind() -> BoxedStrategy<DistKind> {
     .boxed()
 }
 
+/// Mostly valid distributions, plus values just beyond and far beyond each bound that
+/// validation imposes for performance reasons (rejected on the pinned tree; a weakened bound
+/// lets them through). NOT filtered: the consumer calls `validate` itself, under its watchdog.
+pub fn candidate_dist() -> BoxedStrategy<DistSpec> {
+    let beyond = prop_oneof![
+        select(vec![9.99e-10, 1e-12, 1e-100, 1e-300, 5e-324])
+            .prop_map(|p| DistKind::Geometric { probability: Fx(p) }),
+        (select(vec![1u64, 1000, 1_000_000_000]), select(vec![9.99e-10, 1e-12, 1e-100, 1e-300]))
+            .prop_map(|(trials, p)| DistKind::Binomial { trials, probability: Fx(p) }),
+        (select(vec![1_000_000_001u64, 1_000_000_000_000, u64::MAX]), select(vec![0.5, 1e-9, 0.999]))
+            .prop_map(|(trials, p)| DistKind::Binomial { trials, probability: Fx(p) }),
+        select(vec![1.0000000000000002e42, 1e43, 1e100, 1e300, f64::MAX]).prop_map(|l| DistKind::Poisson { lambda: Fx(l) }),
+    ];
+    let kind = prop_oneof![12 => wild_kind(), 1 => beyond];
+    (kind, start_max_wild())
+        .prop_map(|(kind, (s, m))| DistSpec { kind, start: Fx(s), max: Fx(m) })
+        .boxed()
+}
+
 /// A distribution accepted by `Dist::validate`, all families, all corners.
 pub fn valid_dist() -> BoxedStrategy<DistSpec> {
     (wild_kind(), start_max_wild())
